@@ -84,7 +84,7 @@ def spec_liquidate(sp, v):
     stage = "plain"
     if v["nft"] is not None:
         w, q = sp.lp_tokens(v["nft"])
-        bounty = (q * sp.to + w) * F(2, 100)
+        bounty = min((q * sp.to + w) * F(2, 100), coll + w)      # 2 % bounty, paid out of the vault's ETH
         burn = min(q, short)
         excess = q - burn
         short -= burn
@@ -255,7 +255,9 @@ def boundary_cases():
         for coll, short in (("0", "6"), ("0.2", "12"), ("1", "30"), ("0.3", "3")):
             out.append((f"update-{name}-{coll}-{short}", mk([[1, v(coll, short, key)]], [[key, pos(10 ** 19, "0.01", "0.2")]]), E(), {"k": "update"}))
         out.append((f"withdraw-{name}", mk([[1, v("1", "8", key)]], [[key, pos(10 ** 19)]]), E(), {"k": "withdrawUni", "vk": 1, "pos": key}))
-    out.append(("lp-dangling", mk([[1, v("1", "8", [60, 120])]]), E(), {"k": "update"}))
+    # redeeming the LP saves the vault (all debt burned) while the 2 % bounty exceeds the ETH in the vault
+    out.append(("update-lp-saved-bounty-exceeds-eth", mk([[1, v("0", "3", [18000, 21000])]], [[[18000, 21000], pos(10 ** 19, "0", "0.2")]]), E(), {"k": "update"}))
+    out.append(("update-lp-saved", mk([[1, v("0.2", "4.5", [18000, 21000])]], [[[18000, 21000], pos(10 ** 19, "0.01", "0.2")]]), E(), {"k": "update"}))
     out.append(("lp-closed-pool", mk([[1, v("0.1", "12", [21000, 25020])]], [[[21000, 25020], pos(10 ** 19)]]), E(uni_open=False), {"k": "update"}))
     return out
 
